@@ -321,7 +321,7 @@ theorem wfi_blockAll {s : St} {i : Nat} {x : Impl} {b : Bool} (hi : aget s.impls
       s.next :=
   WF.prims.blockAll b h hi
 
-set_option maxHeartbeats 1000000 in
+set_option maxHeartbeats 400000 in
 theorem WF_simple (s : St) (op : Op) (s' : St) (r : String) (hI : WF s)
     (h : stepSimple s op = some (s', r)) : WF s' := by
   cases op <;> simp only [stepSimple] at h
